@@ -304,3 +304,28 @@ PROPS["C06"]["rule"] += (" c06_broker_reject: generated (allowed, presumed, prox
                          "waiting client: if a constructed hostname is accepted by the allowed pattern and refused by the proxy's effective "
                          "pattern the poll must be answered 'incorrect relay pattern' immediately, must not appear in /debug and the client "
                          "must be told 'no proxies'; an accepted poll must cover all sampled members and be matched.")
+
+PROPS["C17"] = {
+    "rule": ("c17_redial: 1-12 (quick) / 1-60 (thorough) scripted in-memory carriers on a fake clock, each with a dial delay, "
+             "upstream/downstream traffic with caller-buffer reuse, and a scripted failure order (read side first / write side "
+             "first while the reader is parked in ReadFrom / both at once / none), optional final dial error, Close once or "
+             "twice, optionally during a dial. Oracle: no error from ReadFrom/WriteTo before Close or a dial error and always "
+             "afterwards; never two carriers un-closed at a dial; every dialled carrier eventually closed; packets delivered "
+             "unmodified and in order; after Close and quiescence zero goroutines remain inside the connection (counted from "
+             "runtime.Stack, and the bubble must be able to end). Non-trivial = at least one write-first failure with a parked "
+             "reader. c17_queue: 1-60 operations (QueueIncoming with buffer scribbling, ReadFrom, WriteTo with scribbling, receive "
+             "from OutgoingQueue, overflow past 2048, Close twice) over 4 addresses against bounded-FIFO models. c17_clientmap: "
+             "explicit-clock state machine on the inner map; c17_clientmap_rt: the real ClientMap with a short real timeout."),
+    "assumptions": ["a dial in progress is not cancelled by Close (the connection never cancels its dial context before the dial returns); the scripted dialer therefore always returns"],
+    "units": [
+        U("c17_redial", "ext", "c17", "^TestVerifC17Redial$", (400, 5000), timeout=(300, 3000), wedge_is_violation=True),
+        U("c17_queue", "ext", "c17", "^TestVerifC17Queue$", (300, 4000), timeout=(300, 3000)),
+        U("c17_clientmap", "inpkg", "common/turbotunnel", "^TestVerifC17ClientMap$", (1500, 20000)),
+        U("c17_clientmap_rt", "inpkg", "common/turbotunnel", "^TestVerifC17ClientMapRealTime$", (1, 1), shards=(2, 4)),
+    ],
+}
+META["C17"] = {
+    "level": "Sampled exploration of fault orders and operation sequences: scripted carriers on a fake clock (failure order is chosen, not raced), model-based FIFO oracle for the queue connection, explicit-clock state machine for the client map, goroutine census for leaks.",
+    "note": "Goroutine leaks are observed both by a census of stacks inside the package and by the fake-clock bubble refusing to end while goroutines are blocked.",
+    "technique": "property-based testing (rapid): fault-sequence generation with scripted fakes on a fake clock; model-based state-machine testing; goroutine-census invariant",
+}
